@@ -1,9 +1,11 @@
 import Driver.Drv.Lru
+import Driver.Drv.Stop
 import Driver.Drv.Store
 namespace Driver
 
 def drivers : List (String × CaseFn) := [
   ("lru", Driver.Drv.Lru.runCase),
+  ("stop", Driver.Drv.Stop.runCase),
   ("store", Driver.Drv.Store.runCase)]
 
 end Driver
